@@ -315,9 +315,10 @@ def enumerate_cases(tier, seed):
                 cases.append({'kind': 'cfgseq', 'enc': enc, 'blocked': blocked, 'steps': steps, 'mode': 'rebind'})
     for n in range(0, 40):
         cases.append({'kind': 'short', 'n': n})
-    for mx in (None, 100, 1012):
+    for mx in (None, 0, 1, 23, 100, 1012, 6000, 65535, 100000):
         for delta in (-1, 0, 1, 2, 1000):
-            cases.append({'kind': 'first_length', 'delta': delta, 'max': mx})
+            if (mx or 0) + delta >= 0 or mx is None:
+                cases.append({'kind': 'first_length', 'delta': delta, 'max': mx})
     for i in range(16):
         cases.append({'kind': 'full_byte', 'bytes': [i]})
     cases.append({'kind': 'full_byte', 'bytes': list(range(16))})
